@@ -6,7 +6,7 @@
 From Coq Require Import List ZArith NArith Bool.
 From JL Require Import Base.Json Base.Lits Base.F64 Base.Str Base.Dec2Flt Base.Flt2Dec Base.JsonText Base.Monad.
 From JL Require Import Model.JsOp Model.Ops Model.Table Gen.OpTable Model.Eval Model.Boundary.
-From JL Require Import Spec.Specs Spec.RefEval Spec.SpecApply.
+From JL Require Import Spec.Specs Spec.OpSpecs Spec.RefEval Spec.SpecApply.
 Import ListNotations.
 
 Inductive helper_name :=
@@ -232,6 +232,9 @@ Definition spec_ok (p : prop_id) (c : case) : bool :=
       | H_abstract_lte, [a; b], HBool x => Bool.eqb x (es_le a b)
       | H_abstract_gte, [a; b], HBool x => Bool.eqb x (es_le b a)
       | H_to_string, [a], HStr s => str_eqb s (to_string_spec a)
+      | H_str_to_number, [Str t], HF o => opt_eqb f64_same o (es_str_to_number t)
+      | H_to_number, [a], HF o => opt_eqb f64_same o (es_to_number a)
+      | H_parse_float, [a], HF o => opt_eqb f64_same o (es_parse_float a)
       | _, _, _ => true
       end
   | WCli _ logic data, ObsCli lines code =>
